@@ -66,7 +66,7 @@ typedef struct {
   OpRes r[MAXT][MAXOPS];
   unsigned char final[MAXOBJ][MAXSTATE];
   long steps, switches, conflict_windows, msteps, cas_fail_writeback, drained, stall_fired, pct_fired;
-  long sb_buffered, sb_flushed, sb_forced, sb_windows; // stores that went through a buffer; made visible by the scheduler; by a barrier / own overlapping load; loads that overtook an own buffered store
+  long sb_buffered, sb_flushed, sb_forced, sb_windows, sb_forwarded; // stores that went through a buffer; made visible by the scheduler; by a barrier / own overlapping load; loads that overtook an own buffered store
   uint64_t loghash;
   int badobj;
   char detail[400];
@@ -183,12 +183,22 @@ static void *objaddr[MAXOBJ];
 static unsigned char arena[1024] __attribute__((aligned(64)));
 // ---- store buffers (x86-TSO): a plain store goes into its thread's FIFO and reaches memory later; the thread's own loads
 // see it (an overlapping load drains the buffer first, which TSO allows), locked instructions, xchg and mfence drain it
-typedef struct { unsigned char *addr; int size; unsigned char bytes[16]; } SBEnt;
+typedef struct { unsigned char *addr; int size; int opk; long seq; unsigned char bytes[16]; } SBEnt;
 static SBEnt sb[MAXT][SBCAP];
 static int sb_head[MAXT], sb_n[MAXT];
-static struct { int active; unsigned char *addr; int size; unsigned char old[16]; } sb_pend[MAXT];
+static struct { int active; unsigned char *addr; int size; unsigned char old[16]; unsigned short fwd; } sb_pend[MAXT]; // active: 1 store, 2 forwarded load
 static int tso_on;
 static int fl_used[MAXFL];
+// An operation that IS a plain store (atomic_store, atomic_flag_clear: chibicc spells them `*p = v`) takes effect when its
+// store leaves the buffer, not when the function returns: its response is stamped then. That is the most a plain store can
+// promise under TSO, it is outside this property (not a read-modify-write), and it lets such operations share a run with the
+// read-modify-writes whose interplay with them IS inside (an "identity" RMW compiled to a plain load would read the buffer).
+static int curop[MAXT];               // index of the operation thread t is executing (-1 between operations)
+static int sb_out[MAXT][MAXOPS];      // buffered stores of that operation not yet visible
+static int sb_defer[MAXT][MAXOPS];    // response still to be stamped
+static long sb_seq[MAXT], sb_need[MAXT][MAXOPS]; // entries are numbered; a plain LOAD operation that was served from the buffer
+                                      // responds when the newest entry it could have read (sb_need) has become visible
+static int sb_fwd_in_op[MAXT];
 #define SENT(i) ((unsigned char)(0xA5 ^ ((i) * 31)))
 
 static int runnable_count(void) {
@@ -299,6 +309,12 @@ static void sb_flush_one(int t) {
   memcpy(e->addr, e->bytes, e->size);
   sb_head[t] = (sb_head[t] + 1) % SBCAP;
   sb_n[t]--;
+  if (e->opk >= 0 && --sb_out[t][e->opk] == 0 && sb_defer[t][e->opk] == 1) {
+    sb_defer[t][e->opk] = 0;
+    R->r[t][e->opk].resp = ++stamp;
+  }
+  for (int k = 0; k < MAXOPS; k++)
+    if (sb_defer[t][k] == 2 && sb_need[t][k] <= e->seq) { sb_defer[t][k] = 0; R->r[t][k].resp = ++stamp; }
 }
 static void sb_drain(int t) { while (sb_n[t]) sb_flush_one(t); }
 static void sb_drain_all(void) { for (int t = 0; t < MAXT; t++) sb_drain(t); }
@@ -416,8 +432,26 @@ void sim_access_c(long imm, unsigned char *addr) {
     sb_pend[me].size = size;
     memcpy(sb_pend[me].old, addr, size);
   } else if (sb_n[me]) {
-    if (sb_overlaps(me, addr, size)) { R->sb_forced += sb_n[me]; sb_drain(me); }
-    else R->sb_windows++;
+    if (sb_overlaps(me, addr, size)) {
+      // store-to-load forwarding: the thread reads its own buffered bytes; nobody else sees them. For the one instruction
+      // that follows, memory is overlaid with them (oldest entry first) and put back by the post hook.
+      sb_pend[me].active = 2;
+      sb_pend[me].addr = addr;
+      sb_pend[me].size = size;
+      sb_pend[me].fwd = 0;
+      for (int i = 0; i < sb_n[me]; i++) {
+        SBEnt *e = &sb[me][(sb_head[me] + i) % SBCAP];
+        for (int b = 0; b < e->size; b++) {
+          long d = e->addr + b - addr;
+          if (d < 0 || d >= size) continue;
+          if (!(sb_pend[me].fwd >> d & 1)) { sb_pend[me].old[d] = addr[d]; sb_pend[me].fwd |= 1u << d; }
+          addr[d] = e->bytes[b];
+        }
+      }
+      R->sb_forwarded++;
+      sb_fwd_in_op[me] = 1;
+    } else
+      R->sb_windows++;
   }
 }
 
@@ -426,11 +460,20 @@ void sim_store_post_c(void) {
   if (cur < 0) return;
   int me = cur;
   if (!sb_pend[me].active) return;
+  if (sb_pend[me].active == 2) { // a forwarded load has executed: memory shows the globally visible bytes again
+    for (int d = 0; d < sb_pend[me].size; d++)
+      if (sb_pend[me].fwd >> d & 1) sb_pend[me].addr[d] = sb_pend[me].old[d];
+    sb_pend[me].active = 0;
+    return;
+  }
   sb_pend[me].active = 0;
   if (sb_n[me] == SBCAP) { sb_flush_one(me); R->sb_forced++; }
   SBEnt *e = &sb[me][(sb_head[me] + sb_n[me]) % SBCAP];
   e->addr = sb_pend[me].addr;
   e->size = sb_pend[me].size;
+  e->opk = curop[me];
+  e->seq = ++sb_seq[me];
+  if (e->opk >= 0) sb_out[me][e->opk]++;
   memcpy(e->bytes, e->addr, e->size);
   // memory shows, for now, what it showed before -- unless an older store of this thread to the same bytes is still
   // buffered too: then the older bytes are what memory must keep showing, and they are already there
@@ -504,9 +547,15 @@ static void worker(int t) {
     loaded_in_op[t] = 0;
     r->inv = ++stamp;
     inflight[t] = o->obj;
+    curop[t] = k;
+    sb_fwd_in_op[t] = 0;
     long ret = optable[o->op].fn[P->mix ? (P->build ^ (t & 1)) : P->build](objaddr[o->obj], o->a, &b);
+    curop[t] = -1;
     inflight[t] = -1;
-    r->resp = ++stamp;
+    int plain_store_op = optable[o->op].cls == 6 || strstr(optable[o->op].opname, "clear") != NULL;
+    if (tso_on && plain_store_op && sb_out[t][k] > 0) sb_defer[t][k] = 1; // stamped when the store becomes visible
+    else if (tso_on && optable[o->op].cls == 5 && sb_fwd_in_op[t] && sb_n[t]) { sb_defer[t][k] = 2; sb_need[t][k] = sb_seq[t]; } // a plain load served from the buffer
+    else r->resp = ++stamp;
     r->ret = ret;
     r->bout = tso_on ? sb_forward_long(t, &b) : b;
     r->done = 1;
@@ -712,7 +761,9 @@ static void run_plan(const Plan *p, Result *r) {
   memset(fl_used, 0, sizeof(int) * (p->nfl < MAXFL ? p->nfl : MAXFL));
   r->nfl = 0;
   tso_on = p->tso;
-  for (int t = 0; t < MAXT; t++) { sb_head[t] = sb_n[t] = 0; sb_pend[t].active = 0; }
+  for (int t = 0; t < MAXT; t++) { sb_head[t] = sb_n[t] = 0; sb_pend[t].active = 0; curop[t] = -1; sb_seq[t] = 0; }
+  memset(sb_out, 0, sizeof sb_out);
+  memset(sb_defer, 0, sizeof sb_defer);
   own_k = 0;
   for (int t = 0; t < MAXT; t++) { done[t] = 1; blocked[t] = 0; lcount[t] = 0; inflight[t] = -1; pending_window[t] = 0; loaded_in_op[t] = 0; }
   if (p->strategy == S_PCT) {
@@ -919,9 +970,8 @@ static int gen(Plan *p, uint64_t seed) {
   p->sched_seed = rnd();
   p->npre = 0;
   p->nfl = 0;
-  // store-buffer model for a quarter of the multi-threaded plans. Operations that ARE plain stores by design (atomic_store,
-  // atomic_flag_clear as chibicc's <stdatomic.h> spells them: not read-modify-writes, so outside this property) would be
-  // flagged for what they are; plans containing one keep sequentially consistent memory.
+  // store-buffer model for a quarter of the multi-threaded plans (decided below). Operations that ARE plain stores by design
+  // (atomic_store, atomic_flag_clear as chibicc's <stdatomic.h> spells them) respond when their store becomes visible.
   // a quarter of the plans let every thread run ONE operation function (whatever hidden state the emitted code keeps per
   // function is then shared by all of them at once); a quarter of the plans whose objects are reached through pointers let
   // odd threads use the other build's code (two object files operating on one object)
@@ -940,7 +990,7 @@ static int gen(Plan *p, uint64_t seed) {
   for (int t = 0; t < p->nthreads && p->tso; t++)
     for (int k = 0; k < p->nops[t]; k++) {
       const struct opinfo *oi = &optable[p->ops[t][k].op];
-      if (oi->cls == 6 || strstr(oi->opname, "clear") || !strncmp(oi->opname, "store", 5)) p->tso = 0;
+      if ((oi->cls == 6 || strstr(oi->opname, "clear")) && p->obj[0].local) p->tso = 0; // (the owner's by-name store reports through another path)
     }
   return 0;
 }
@@ -1360,7 +1410,7 @@ int main(int argc, char **argv) {
     uint64_t master = strtoull(argv[2], 0, 0);
     long first = atol(argv[3]), count = atol(argv[4]);
     long runs = 0, viol = 0, steps = 0, switches = 0, windows = 0, nontriv = 0, msteps = 0, casfail = 0, drained = 0, stallf = 0, pctf = 0,
-         ops = 0, minimised = 0, sampled_distinct = 0, tso_plans = 0, mix_plans = 0, sbb = 0, sbf = 0, sbd = 0, sbw = 0;
+         ops = 0, minimised = 0, sampled_distinct = 0, tso_plans = 0, mix_plans = 0, sbb = 0, sbf = 0, sbd = 0, sbw = 0, sbfw = 0;
     long by_strat[NSTRAT] = {0}, by_threads[MAXT + 1] = {0}, by_cls[9] = {0}, by_storage[10] = {0}, by_build[2] = {0}, by_viol[5] = {0};
     for (long i = first; i < first + count; i++) {
       uint64_t seed = mixseed(master, i);
@@ -1370,7 +1420,7 @@ int main(int argc, char **argv) {
       steps += r.steps; switches += r.switches; windows += r.conflict_windows; msteps += r.msteps;
       casfail += r.cas_fail_writeback; drained += r.drained; stallf += r.stall_fired; pctf += r.pct_fired;
       by_strat[p.strategy]++; by_threads[p.nthreads]++; by_build[p.build]++;
-      mix_plans += p.mix; tso_plans += p.tso; sbb += r.sb_buffered; sbf += r.sb_flushed; sbd += r.sb_forced; sbw += r.sb_windows;
+      mix_plans += p.mix; tso_plans += p.tso; sbb += r.sb_buffered; sbf += r.sb_flushed; sbd += r.sb_forced; sbw += r.sb_windows; sbfw += r.sb_forwarded;
       for (int t = 0; t < p.nthreads; t++)
         for (int k = 0; k < p.nops[t]; k++) { ops++; by_cls[optable[p.ops[t][k].op].cls]++; by_storage[optable[p.ops[t][k].op].storage]++; }
       if (r.conflict_windows > 0) {
@@ -1397,7 +1447,7 @@ int main(int argc, char **argv) {
     for (int c = 0; c < 10; c++) printf(" storage_%s=%ld", sn[c], by_storage[c]);
     printf(" build_default=%ld build_pic=%ld", by_build[0], by_build[1]);
     printf(" mixed_build_plans=%ld", mix_plans);
-    printf(" tso_plans=%ld tso_stores_buffered=%ld tso_flushed_by_scheduler=%ld tso_drained_by_barrier_or_own_load=%ld tso_loads_overtaking_own_store=%ld", tso_plans, sbb, sbf, sbd, sbw);
+    printf(" tso_plans=%ld tso_stores_buffered=%ld tso_flushed_by_scheduler=%ld tso_drained_by_barrier=%ld tso_loads_overtaking_own_store=%ld tso_loads_forwarded_from_own_buffer=%ld", tso_plans, sbb, sbf, sbd, sbw, sbfw);
     for (int c = 1; c < 5; c++) printf(" viol_%s=%ld", clsname[c], by_viol[c]);
     printf("\n");
     return 0;
